@@ -1,8 +1,7 @@
 /* C15: process_data of lib/xfrm/src/gzip.c against the zlib contract
  * (see adapter_common.h). zlib codes: Z_OK (progress made), Z_STREAM_END,
- * Z_BUF_ERROR (no progress possible, not fatal), failures Z_NEED_DICT,
- * Z_ERRNO, Z_STREAM_ERROR, Z_DATA_ERROR, Z_MEM_ERROR (inflate: NEED_DICT,
- * DATA_ERROR, MEM_ERROR, STREAM_ERROR; deflate: STREAM_ERROR);
+ * Z_BUF_ERROR (no progress possible, not fatal); ANY other int value,
+ * documented or not, is a failure and may come back at every call;
  * inflateReset/deflateReset: Z_OK or Z_STREAM_ERROR.
  */
 #include "C15/adapter_common.h"
@@ -23,14 +22,10 @@ static int lib_step(z_streamp s, int flush, bool compress)
 	lib_enter(s->next_in, s->avail_in, s->next_out, s->avail_out, compress);
 	VERIF_ASSERT(flush == expect[g_mode], "C15.adapter.flush_mode");
 	lib_progress(s->avail_in, s->avail_out, &c, &p);
-	if (compress)
-		VERIF_ASSUME(code == Z_OK || code == Z_STREAM_END ||
-			     code == Z_BUF_ERROR || code == Z_STREAM_ERROR);
-	else
-		VERIF_ASSUME(code == Z_OK || code == Z_STREAM_END ||
-			     code == Z_BUF_ERROR || code == Z_NEED_DICT ||
-			     code == Z_DATA_ERROR || code == Z_MEM_ERROR ||
-			     code == Z_STREAM_ERROR);
+	/* ANY int may come back: Z_OK, Z_STREAM_END and Z_BUF_ERROR have their
+	 * documented meaning, every other value - documented failure codes
+	 * (Z_NEED_DICT, Z_ERRNO, Z_STREAM_ERROR, Z_DATA_ERROR, Z_MEM_ERROR,
+	 * Z_VERSION_ERROR) or not - is a failure */
 	if (code == Z_OK)
 		VERIF_ASSUME(c > 0 || p > 0);
 	/* "no progress possible": there was no input or no room */
@@ -91,7 +86,7 @@ void harness(void)
 	g_out_size0 = out_size;
 	g_c = g_p = 0;
 	g_lib_calls = 0;
-	g_lib_failed = g_lib_end = g_stalled = false;
+	g_lib_failed = g_lib_end = g_stalled = g_fail_stalled = false;
 	g_resets = 0;
 	g_reset_failed = false;
 	g_mode = (mode < 0 || mode >= XFRM_STREAM_FLUSH_COUNT) ? 0 : mode;
